@@ -675,6 +675,11 @@ def is_pure(e):
     return True
 
 
+def _path_prefix(a, b):
+    """access path text a is b or a prefix of b at a component boundary (`x.y` of `x.y[0]`, not `x` of `xy`)"""
+    return a == b or (b.startswith(a) and b[len(a):len(a) + 1] in (".", "["))
+
+
 def _paths(e):
     """names and attribute/subscript path texts read by e"""
     names, paths = set(), set()
@@ -698,7 +703,7 @@ class VarInliner:
         self.applied = []
 
     def run(self):
-        for _ in range(6):
+        for _ in range(400):
             if not self._once():
                 break
         return self.applied
@@ -734,10 +739,8 @@ class VarInliner:
                 span = later[:last + 1]
                 if self._mutated(v, span):
                     continue
-                if is_pure(s.value):
-                    if not self._undisturbed(s.value, span):
-                        continue
-                else:
+                if not (is_pure(s.value) and self._undisturbed(s.value, span)):
+                    # the single use is the first thing the next statement evaluates: nothing can come between
                     if uses_total != 1 or last != 0:
                         continue
                     nxt = later[0]
@@ -802,7 +805,7 @@ class VarInliner:
                         txt = ast.unparse(x)
                     except Exception:
                         return False
-                    if any(p == txt or p.startswith(txt) or txt.startswith(p) for p in paths):
+                    if any(_path_prefix(txt, p) or _path_prefix(p, txt) for p in paths):
                         return False
                     base = x
                     while isinstance(base, (ast.Attribute, ast.Subscript)):
@@ -820,7 +823,7 @@ class VarInliner:
                         txt = ast.unparse(base)
                     except Exception:
                         return False
-                    if txt in names or any(p == txt or p.startswith(txt) for p in paths):
+                    if txt in names or any(_path_prefix(txt, p) for p in paths):
                         return False
         return True
 
